@@ -1,4 +1,5 @@
 """Which solver queries decide which property (DESIGN.md section 3)."""
+import os
 from .core import Job
 
 COMMON_ASSUME = [
@@ -102,6 +103,7 @@ ENC_QUICK = [
     enc_shape([8, 8], minb=64), enc_shape([8, 8], api=2),
     enc_shape([8, 8, 8]), enc_shape([8, 41, 8]), enc_shape([8, 8, 8], [1, 3, 1]), enc_shape([4, 4, 4], [3, 3, 1], maxb=64, minb=20),
     enc_shape([], api=1), enc_shape([], api=2),
+
 ]
 ENC_THOROUGH = [
     enc_shape([l], maxb=mb, minb=mn) for mb in (25, 40, 64) for mn in (0, mb) for l in sorted({1, mb - 25, mb - 24, mb - 23, 2 * (mb - 24), 2 * (mb - 24) + 1}) if l >= 1
@@ -158,6 +160,18 @@ def enc_twice_jobs():
     return jobs
 
 
+def enc_counter_jobs():
+    """C09, model-free, incl. packets with an empty payload (outside C07's domain, inside C09's 'any encode call')"""
+    jobs = []
+    shapes = [(enc_shape([0]), "quick"), (enc_shape([8, 0]), "quick"), (enc_shape([0, 8]), "quick"), (enc_shape([8, 0], [1, 3]), "quick"), (enc_shape([33, 0], maxb=40), "quick"),
+              (enc_shape([16, 0], maxb=40), "quick"), (enc_shape([0, 0], [1, 3], minb=40), "quick"), (enc_shape([8, 41, 8]), "quick"), (enc_shape([0], minb=40), "thorough"), (enc_shape([0, 0, 0], api=2), "thorough"),
+              (enc_shape([8, 0, 8], [1, 1, 3]), "thorough"), (enc_shape([0, 33], maxb=40), "thorough"), (enc_shape([8, 8], [1, 3]), "thorough"), (enc_shape([], api=1), "thorough")]
+    for d, tier in shapes:
+        jobs.append(Job("enc.cpp", "h_enc_counters", defs=d, unwind=1200, tier=tier, in_max=enc_in_max(d) + 16, mem_gb=4,
+                        sym=ENC_SYM, outside=ENC_OUT + "; two consecutive calls of the same batch"))
+    return jobs
+
+
 def enc_big_jobs():
     """frames at the top of the size range (sizes/tiling only, contents nondeterministic but not compared byte by byte)"""
     jobs = []
@@ -180,7 +194,7 @@ PROPS["C07"] = {"jobs": lambda: enc_jobs(["h_enc_model"]) + enc_twice_jobs() + e
                 "level": "bounded symbolic model checking of Encoder::encode against an independent frame model, all contents symbolic per shape"}
 PROPS["C08"] = {"jobs": lambda: enc_jobs(["h_enc_model"]) + enc_twice_jobs(), "assumptions": ENC_ASSUME,
                 "level": "bounded symbolic model checking of Encoder::encode against an independent segmentation/aggregation model"}
-PROPS["C09"] = {"jobs": lambda: enc_jobs(["h_enc_model", "h_enc_reset"]) + enc_twice_jobs(), "assumptions": ENC_ASSUME + [
+PROPS["C09"] = {"jobs": lambda: enc_jobs(["h_enc_model", "h_enc_reset"]) + enc_twice_jobs() + enc_counter_jobs(), "assumptions": ENC_ASSUME + [
     "history quantifier: one encode call from an arbitrary counter value and arbitrary ids is an inductive step; the lift to all histories is by induction on the number of calls (DESIGN.md section 2)"],
                 "level": "bounded symbolic model checking of one encode/configuration step from an arbitrary counter state (inductive step over histories)"}
 PROPS["C10"] = {"jobs": lambda: enc_jobs(["h_enc_used", "h_enc_model"]) + enc_twice_jobs(), "assumptions": ENC_ASSUME + [
@@ -457,6 +471,12 @@ def seq_family(pfx, extra_len=2, samedev=1):
         d = seq_shape2(frames, pfx, samedev=samedev)
         d.update({"START0": 65534, "START1": 65535})
         shapes.append(d)
+    if extra_len >= 3:
+        # 14^3 = 2744 continuations cost ~1.5 h per property; the thorough tier decides a VERIF_SEED-chosen 500 of them per
+        # run (each one for all contents); successive seeds cover the family
+        import random
+        rnd = random.Random(1000 * pfx + int(os.environ.get("VERIF_SEED", "0") or 0))
+        shapes = rnd.sample(shapes, 500)
     return shapes
 
 
